@@ -960,21 +960,30 @@ void op_validate_t(Cur &c, Out &o)
     for (size_t p = 0; p < nend; p++)
         ends[p] = 100 + (ndistinct ? (nstart + p) % ndistinct : 0);
     const double S = -12345.678;
-    std::vector<double> aff(naff, S), ud(usize, S);
+    // what the caller's containers hold before the call: a recognisable value, and values a library might be tempted
+    // to "clean up" (tiny, negative tiny, just below 1e-6, NaN is left to the run op)
+    auto pattern = [&](size_t n) {
+        static const double P[4] = {S, 1e-9, -3e-8, 9.99e-7};
+        std::vector<double> x(n);
+        for (size_t i = 0; i < n; i++)
+            x[i] = P[i % 4];
+        return x;
+    };
+    std::vector<double> aff(pattern(naff)), ud(pattern(usize));
     // shaped N x (usize/N) as both front ends do whenever that is possible
     const size_t urows = (ndistinct && usize % ndistinct == 0 && usize) ? ndistinct : usize;
     const size_t ucols = urows ? usize / urows : 1;
-    Matrix<double> u(urows, ucols, ud), v(3, 2, std::vector<double>(6, S));
+    Matrix<double> u(urows, ucols, ud), v(3, 2, pattern(6));
     std::vector<size_t> labels(3, 777);
     utils::RandomGenerator<> rng{(std::time_t)1};
     auto untouched = [&]() {
         if (labels != std::vector<size_t>(3, 777))
             return false;
-        if (aff != std::vector<double>(naff, S))
+        if (aff != pattern(naff))
             return false;
         if (u.get_data() != ud || u.get_nrows() != urows || u.get_ncols() != ucols)
             return false;
-        if (v.get_data() != std::vector<double>(6, S) || v.get_nrows() != 3 || v.get_ncols() != 2)
+        if (v.get_data() != pattern(6) || v.get_nrows() != 3 || v.get_ncols() != 2)
             return false;
         return true;
     };
